@@ -21,7 +21,7 @@ LEVEL = "fault_enumeration"
 RULE = ("fault placements: (site kind: raising watcher on set / on batch flush / on trigger / on update flush; rejected "
         "k-th key of update incl. an Event key; rejected constructor keyword; raising body of batch, discard, edit_constant, "
         "update-context) x position x nesting depth 0-2 x caught-inside-a-surrounding-batch yes/no are enumerated completely "
-        "for a fixed 3-watcher configuration; around them Hypothesis generates watcher configurations, surrounding programs "
+        "for a fixed 4-watcher configuration; around them Hypothesis generates watcher configurations, surrounding programs "
         "and sequences of up to three faults. Oracle = the same probe (fresh watchers, same-value set, changing set, batch, "
         "trigger, Event set, update, constant flags) on the faulted object and on a freshly built twin, traces compared; plus "
         "silence inside a surrounding batch after a caught fault. Non-trivial = the fault strikes while an event is queued, "
@@ -33,7 +33,7 @@ ASSUMPTIONS = [
 ]
 SIZES = {"quick": 1200, "thorough": 8000}
 EXHAUSTIVE_NOTE = ("one fault x {site kind} x {position} x {nesting: none, batch, batch>batch, discard, updctx, batch>discard} x "
-                   "{caught inside the surrounding batch or propagated} under a fixed 3-watcher configuration")
+                   "{caught inside the surrounding batch or propagated} under a fixed 4-watcher configuration")
 
 PN = ["a", "b", "c", "ev"]
 
@@ -50,7 +50,8 @@ def _leaf(fam):
     t = st.integers(0, 1)
     n = st.integers(0, 2)
     key = st.one_of(st.tuples(st.just("v"), n, _val), st.tuples(st.just("v"), n, _val),
-                    st.tuples(st.just("bad")), st.tuples(st.just("ev")), st.tuples(st.just("numok"), st.integers(0, 9)))
+                    st.tuples(st.just("bad")), st.tuples(st.just("ev")), st.tuples(st.just("numok"), st.integers(0, 9)),
+                    st.tuples(st.just("unknown")))
     return st.one_of(
         st.tuples(st.just("set"), t, n, _val),
         st.tuples(st.just("set"), t, n, _val),
@@ -59,6 +60,7 @@ def _leaf(fam):
         st.tuples(st.just("trigger"), t, st.lists(st.integers(0, 3), min_size=1, max_size=2, unique=True)),
         st.tuples(st.just("event"), t),
         st.tuples(st.just("ctor"), st.booleans()),
+        st.tuples(st.just("bad_trigger"), t, n),
     ).map(list)
 
 
@@ -99,6 +101,7 @@ _FIXED_WS = [
     {"target": 0, "names": [0, 1], "what": "value", "onlychanged": True, "queued": False, "precedence": 0, "mode": "args", "script": []},
     {"target": 0, "names": [0, 3], "what": "value", "onlychanged": False, "queued": True, "precedence": 1, "mode": "args", "script": []},
     {"target": 0, "names": [2], "what": "value", "onlychanged": False, "queued": False, "precedence": 0, "mode": "kwargs", "script": []},
+    {"target": 0, "names": [1], "what": "value", "onlychanged": False, "queued": False, "precedence": 2, "mode": "args", "script": []},
 ]
 
 
@@ -124,6 +127,9 @@ def enumerate_cases(tier):
         keys = [["v", 0, 1], ["v", 1, 4], ["ev"]]
         keys.insert(pos, ["bad"])
         sites.append(("rejected_key", [["update", 0, keys]], []))
+    sites.append(("unknown_key", [["update", 0, [["v", 0, 1], ["ev"], ["unknown"]]]], []))
+    sites.append(("unknown_key_first", [["update", 0, [["unknown"], ["ev"], ["v", 0, 1]]]], []))
+    sites.append(("rejected_trigger", [["bad_trigger", 0, 0]], []))
     sites.append(("ctor", [["ctor", True]], []))
     for bk in ("batch", "discard", "editconst", "updctx"):
         for j in (0, 1, 2):
@@ -296,6 +302,8 @@ def execute(case):
         kind = node[0]
         if kind == "set":
             t = node[1]
+            if not discarding[t]:
+                world.trace.append(("applied", t, NAMES[node[2]], None))
             try:
                 world.assign(t, NAMES[node[2]], pool_value(node[3]))
             except Fault:
@@ -313,12 +321,16 @@ def execute(case):
                     bad = True
                 elif key[0] == "numok":
                     kv["num"] = key[1]
+                elif key[0] == "unknown":
+                    kv["nosuchparameter"] = 1     # not a parameter: ValueError
+                    bad = True
                 else:
                     kv["ev"] = True
-            if "num" in kv and bad:
+            if "num" in kv and bad and "nosuchparameter" not in kv:
                 kv["num"] = 99
             if bad and "ev" in kv:
                 state["labels"].add("event_key_in_failing_update")
+            pos0 = len(world.trace)
             try:
                 world.targets[t].param.update(**kv)
             except Fault:
@@ -326,9 +338,17 @@ def execute(case):
                 raise
             except ValueError:
                 note_fault("rejected_key")
-                if list(kv).index("num") > 0:
+                badkey = "nosuchparameter" if "nosuchparameter" in kv else "num"
+                applied = list(kv)[:list(kv).index(badkey)]
+                if applied:
                     state["labels"].add("rejected_after_applied_keys")
+                if "nosuchparameter" in kv:
+                    applied = []          # an unknown name may be refused before anything is applied: no claim
+                if not discarding[t]:
+                    world.trace[pos0:pos0] = [("applied", t, k_, kv[k_]) for k_ in applied if k_ in NAMES]
                 raise
+            if not discarding[t]:
+                world.trace[pos0:pos0] = [("applied", t, k_, kv[k_]) for k_ in kv if k_ in NAMES]
         elif kind == "trigger":
             t = node[1]
             try:
@@ -337,6 +357,21 @@ def execute(case):
                 note_fault("watcher_on_trigger")
                 state["labels"].add("fault_during_trigger")
                 raise
+        elif kind == "bad_trigger":
+            # trigger re-assigns the current values: make the current value of `num` invalid (bounds tightened after
+            # it was set) so that param.trigger('num', <name>) is rejected half-way
+            t = node[1]
+            o = world.targets[t]
+            saved = o.param.num.bounds
+            o.param.num.bounds = (5, 10)      # num is 1
+            try:
+                o.param.trigger(NAMES[node[2]], "num")
+            except ValueError:
+                note_fault("rejected_trigger")
+                state["labels"].add("fault_during_trigger")
+                raise
+            finally:
+                o.param.num.bounds = saved
         elif kind == "event":
             t = node[1]
             try:
@@ -430,6 +465,21 @@ def execute(case):
                 res.fail("C05.not_deferred_after_fault", f"{tag}: watcher w{e[1]} ran inside the still open surrounding batch "
                                                         f"after a caught fault: {e!r}")
                 break
+        # every change applied outside discard_events is announced to each unfiltered watcher by the end of the statement
+        # (also when a later key / trigger / body failed) - unless a *watcher* raised, which aborts the deliveries
+        watcher_fault = any(e[0] == "raise" for e in world.trace)
+        if not watcher_fault:
+            for pos, e in enumerate(world.trace):
+                if e[0] != "applied":
+                    continue
+                _a, t_, n_, _v = e
+                for wid, sp in enumerate(specs):
+                    if sp["target"] != t_ or sp["onlychanged"] or n_ not in [PN[i] for i in sp["names"]]:
+                        continue
+                    if not any(x[0] == "enter" and x[1] == wid and any(r[0] == n_ for r in x[2]) for x in world.trace[pos:]):
+                        res.fail("C05.applied_change_not_announced", f"{tag}: the change of t{t_}.{n_} was applied but never "
+                                                                     f"announced to unfiltered watcher w{wid} by the end of the statement")
+                        break
         if not state["faulted"]:
             continue
         nfaults += 1
